@@ -12,7 +12,6 @@ import (
 	"fmt"
 	"io"
 	"os"
-	"sync"
 
 	"github.com/cnotch/ipchub/av/format/mpegts"
 )
@@ -25,12 +24,6 @@ type segmentFile interface {
 	delete() error
 }
 
-var segmentPool = sync.Pool{
-	New: func() interface{} {
-		return bytes.NewBuffer(make([]byte, 0, 512*1024))
-	},
-}
-
 type memorySegmentFile struct {
 	file *bytes.Buffer
 	w    mpegts.FrameWriter
@@ -41,8 +34,9 @@ func newMemorySegmentFile() segmentFile {
 }
 
 func (mf *memorySegmentFile) open(path string) (err error) {
-	mf.file = segmentPool.Get().(*bytes.Buffer)
-	mf.file.Reset()
+	// 不能复用缓冲池：get() 交出去的 reader 直接引用这块内存，
+	// 分段滑出播放列表后仍可能有慢速的读者在读
+	mf.file = bytes.NewBuffer(make([]byte, 0, 512*1024))
 	mf.w, err = mpegts.NewWriter(mf.file)
 	return
 }
@@ -62,10 +56,7 @@ func (mf *memorySegmentFile) get() (io.Reader, int, error) {
 }
 
 func (mf *memorySegmentFile) delete() error {
-	if mf.file != nil {
-		segmentPool.Put(mf.file)
-		mf.file = nil
-	}
+	mf.file = nil // 留给 GC；仍在读的 reader 继续持有旧数据
 	return nil
 }
 
